@@ -57,6 +57,7 @@ def check(rep: Report, ctx: Ctx) -> None:
     r717(rep, ctx)
     r718(rep, ctx)
     r719(rep, ctx)
+    r720(rep, ctx)
 
 
 def r71(rep: Report, ctx: Ctx, det: FuncInfo) -> None:
@@ -1397,3 +1398,39 @@ def r719(rep: Report, ctx: Ctx) -> None:
                "are missing: an AND fork with one branch outside the loop "
                "becomes a break-out node and its successors appear both "
                "inside and outside the loop node")
+
+
+def overlap_map(rep: Report, ctx: Ctx, rule: str) -> None:
+    from .effspec import check_table, effects
+    from .walkspec import OVERLAP_TABLE
+    check_table(rep, ctx, rule, OVERLAP_TABLE, list(OVERLAP_TABLE))
+    fi = ctx.func("get_overlapping_event_types")
+    es = "each(P:event_sets)"
+    pairs = [e for e in effects(ctx, fi) if e.kind == "call"
+             and e.name == "add_edges_from" and e.recv == "Graph()"]
+    small = ("cmp", "1", "Lt", f"len({es})", "1")
+    ok = len(pairs) == 1 and pairs[0].args in (
+        (f"{{(each({es}),each({es})) for..}}",),
+        (f"combinations({es},2)",), (f"itertools.combinations({es},2)",)) \
+        and all(g == small for g in pairs[0].guards)
+    rep.ob(rule, "all types of one successor set are connected with each "
+           "other - for every set, however many sets there are", ok, fi=fi,
+           node=pairs[0].node if pairs else fi.node,
+           detail="; ".join(e.show()[:200] for e in pairs) or "<missing>")
+    for fn in OVERLAP_TABLE:
+        fi = ctx.func(fn)
+        rets = [e for e in effects(ctx, fi) if e.kind == "ret"]
+        rep.ob(rule, f"{fi.name} has one way out (no early return with a "
+               "partial answer)", len(rets) == 1, fi=fi,
+               node=rets[-1].node if rets else fi.node,
+               detail="; ".join(e.show()[:120] for e in rets))
+
+
+def r720(rep: Report, ctx: Ctx) -> None:
+    """The overlap map is the second input of the loop classifier (R7.19):
+    successors of an event that occur together in one successor set are one
+    group.  A single set {B, X} already makes B and X a group - that is the
+    AND fork with one branch leaving the loop."""
+    rep.rule("R7.20", "the overlap map groups the successors that occur "
+             "together in some successor set, for every event", 9)
+    overlap_map(rep, ctx, "R7.20")
